@@ -68,6 +68,9 @@ def _coerce(v, sort):
         inj = injection(v0.t.sort(), sort)
         if inj is not None:
             return inj(v0.t)
+        back = _injections.get((sort.name(), v0.t.sort().name()))
+        if back is not None:
+            return back[1](v0.t)       # projection (partial inverse of the embedding)
     if sort.kind() == z3.Z3_UNINTERPRETED_SORT and isinstance(v0, TupV) and sort.name() == 'ArgPack':
         return make_pack(v0.items)
     if sort.kind() == z3.Z3_UNINTERPRETED_SORT and isinstance(v0, Con) \
@@ -399,6 +402,9 @@ def open_site(X, call, node, result_T=None, rely=None, raises=None, reenter=True
     which = X.choose([True] * (1 + len(cats))) if cats else 0
     if which > 0:
         ex = ExcV(cats[which - 1], [], implicit=False, node=node)
+        for (ecls, fname), FT in getattr(spec, 'exc_field_types', {}).items():
+            if ecls == ex.cls:
+                ex.fields[fname] = X.fresh(FT, 'exc_' + fname)
         ex.from_open = name
         raise PyRaise(ex)
     if result_T is None:
